@@ -204,6 +204,10 @@ def parse_unit(path):
             # %constspec PATH ensures-text : const whose initialiser calls an exec fn (R14)
             p, ds = arg.split(None, 1)
             unit.derives["const:" + p] = ds
+        elif d == "%constproof":
+            # %constproof PATH proof-text : proof block placed after the initialiser of an R14 exec const
+            pth, ds = arg.split(None, 1)
+            unit.derives["constproof:" + pth] = ds
         elif d == "%props":
             default_props = arg.split()
         elif d == "%fn":
